@@ -39,12 +39,17 @@ CONSTANTS
   Timer,         \* TRUE: the periodic refresh timer fires; FALSE: only notified refreshes
   AllowRevoke, AllowPublish,
   SplitTrack,    \* TRUE: other threads may run between Track1 and Track2 of a connection
+  Replay,        \* TRUE: behaviours for gate replay: a thread released from a gate runs to its next gate before anything
+                 \* else happens (gates = OnSharedPoll handler entry/return, the trace-log call between the two phases of
+                 \* the keyed write when exactly one subscriber passes phase 1, start/return of publish and revoke calls)
   AsCoded        \* deviations of the code from the reference design that satisfies C25 (subset of the names below);
                  \* {} = reference.  TLC finds C25 counterexamples for each; they are replayed on the real code.
                  \*  "flip-trackers-only": flipEpochAndCollectClients collects only connections that track a key at
                  \*                       that moment (keyed hub members); a subscription without keys survives the flip
                  \*  "removal-unlocked":   keyedWriteRemoval deletes the key state under c.mu but writes the removal
                  \*                       publication after releasing it
+                 \*  "no-epoch-check":     a broadcast computed under one epoch is delivered to a subscription of
+                 \*                       another epoch (the per-connection key state carries no epoch)
 
 None == "none"
 Threads == {"w", "p"}
@@ -67,7 +72,7 @@ vars  == <<bvars, svars, cvars, mvars, th, rv, ops, out, step>>
 
 NoEntry == [ex |-> FALSE, ver |-> 0, data |-> 0, nb |-> FALSE, fresh |-> FALSE]
 NoKs    == [tr |-> FALSE, ver |-> 0, dr |-> FALSE]
-NoB     == [k |-> None, ver |-> 0, data |-> 0, pdata |-> 0, pver |-> 0, tg |-> {}, c |-> None, dposs |-> FALSE]
+NoB     == [k |-> None, ver |-> 0, data |-> 0, pdata |-> 0, pver |-> 0, ep |-> 0, tg |-> {}, c |-> None, dposs |-> FALSE, solo |-> TRUE]
 Idle    == [pc |-> "idle", keys |-> {}, resp |-> <<>>, ep |-> 0, unsubs |-> {}, q |-> <<>>, cur |-> NoB,
             pk |-> [k |-> None, ver |-> 0, data |-> 0]]
 NoRv    == [pc |-> "idle", k |-> None, tg |-> {}, c |-> None]
@@ -295,7 +300,7 @@ WApply ==
   /\ th["w"].pc = "apply"
   /\ LET a == ApplyItems(KeySeq(th["w"].keys), th["w"].resp, entry, vctr, <<>>) IN
        /\ entry' = a.en /\ vctr' = a.vc
-       /\ th' = [th EXCEPT !["w"].pc = "bcast", !["w"].q = a.q]
+       /\ th' = [th EXCEPT !["w"].pc = "bcast", !["w"].q = [i \in 1..Len(a.q) |-> [a.q[i] EXCEPT !.ep = sep]]]
   /\ UNCHANGED <<bvars, sep, pend, hub, notifq, cvars, mvars, rv, ops>>
   /\ Silent /\ step' = [act |-> "WApply"]
 
@@ -308,17 +313,23 @@ PApply ==
           THEN /\ th' = [th EXCEPT !["p"] = Idle] /\ UNCHANGED entry
           ELSE /\ entry' = [entry EXCEPT ![k] = [e EXCEPT !.ver = v, !.data = th["p"].pk.data, !.fresh = TRUE]]
                /\ th' = [th EXCEPT !["p"].pc = "bcast",
-                                   !["p"].q = <<[NoB EXCEPT !.k = k, !.ver = v, !.data = th["p"].pk.data, !.pdata = e.data, !.pver = e.ver]>>]
+                                   !["p"].q = <<[NoB EXCEPT !.k = k, !.ver = v, !.data = th["p"].pk.data, !.pdata = e.data, !.pver = e.ver, !.ep = sep]>>]
   /\ UNCHANGED <<bvars, sep, pend, hub, vctr, notifq, cvars, mvars, rv, ops>>
   /\ Silent /\ step' = [act |-> "PApply"]
 
 ---------------------------------------------------------------------------
 (* hub.broadcastToKey + the two-phase keyed write *)
+\* reference: a broadcast is only for subscriptions of the epoch it was computed under
+EpochOK(b, c) == "no-epoch-check" \in AsCoded \/ b.ep = cep[c]
+Passes(b, c)  == ks[c][b.k].tr /\ b.ver > ks[c][b.k].ver /\ EpochOK(b, c)
+PassSet(b, h) == {c \in h : Passes(b, c)}
 BNext(t) ==                                     \* take the next broadcast: snapshot of the key's subscribers
   /\ th[t].pc = "bcast" /\ th[t].cur.k = None
   /\ IF th[t].q = <<>>
        THEN th' = [th EXCEPT ![t] = Idle]
-       ELSE th' = [th EXCEPT ![t].cur = [Head(th[t].q) EXCEPT !.tg = hub[Head(th[t].q).k]], ![t].q = Tail(@)]
+       ELSE LET b == Head(th[t].q) IN
+            th' = [th EXCEPT ![t].cur = [b EXCEPT !.tg = hub[b.k], !.solo = (~Replay \/ Cardinality(PassSet(b, hub[b.k])) <= 1)],
+                             ![t].q = Tail(@)]
   /\ UNCHANGED <<bvars, svars, cvars, mvars, rv, ops>>
   /\ Silent /\ step' = [act |-> "BNext", t |-> t]
 
@@ -333,11 +344,11 @@ Prep(t, c) ==
   /\ th[t].pc = "bcast" /\ th[t].cur.k # None /\ th[t].cur.c = None /\ c \in th[t].cur.tg
   /\ LET b == th[t].cur
          s == ks[c][b.k]
-     IN IF ~s.tr \/ b.ver <= s.ver
+     IN IF ~Passes(b, c)
           THEN th' = [th EXCEPT ![t].cur.tg = @ \ {c}]                                 \* filtered early
           ELSE th' = [th EXCEPT ![t].cur.tg = @ \ {c}, ![t].cur.c = c, ![t].cur.dposs = (b.pdata # 0 /\ s.dr)]
   /\ UNCHANGED <<bvars, svars, cvars, mvars, rv, ops>>
-  /\ Silent /\ step' = [act |-> "Prep", t |-> t, c |-> c, passed |-> (ks[c][th[t].cur.k].tr /\ th[t].cur.ver > ks[c][th[t].cur.k].ver)]
+  /\ Silent /\ step' = [act |-> "Prep", t |-> t, c |-> c, passed |-> Passes(th[t].cur, c)]
 
 \* phase 3: re-check, delta-vs-full, enqueue and state update in one critical section
 Enq(t) ==
@@ -347,7 +358,7 @@ Enq(t) ==
          s == ks[c][b.k]
          useDelta == b.dposs /\ s.dr /\ s.ver = b.pver
      IN /\ th' = [th EXCEPT ![t].cur.c = None, ![t].cur.dposs = FALSE]
-        /\ IF ~s.tr \/ b.ver <= s.ver
+        /\ IF ~Passes(b, c)
              THEN UNCHANGED <<ks, cheld, cver, cdata>> /\ Silent
              ELSE /\ ks' = [ks EXCEPT ![c][b.k] = [tr |-> TRUE, ver |-> b.ver, dr |-> TRUE]]
                   /\ cheld' = [cheld EXCEPT ![c][b.k] = b.data] /\ cver' = [cver EXCEPT ![c][b.k] = b.ver]
@@ -416,8 +427,15 @@ EnvStep ==
   \/ \E c \in Conns, k \in Keys, v \in 0..(MaxChg + 1) : Track1(c, k, v)
   \/ \E c \in Conns, k \in Keys : Untrack(c, k)
 
+\* a thread between two gates
+Running(t) == th[t].pc \in {"unsub", "apply"} \/ (th[t].pc = "bcast" /\ ~(th[t].cur.c # None /\ th[t].cur.solo))
+RevRunning == rv.pc = "removal" /\ rv.c = None
+
 Next ==
   IF ~SplitTrack /\ ~NoTrackInFlight THEN TStep
+  ELSE IF Replay /\ Running("w") THEN WStep
+  ELSE IF Replay /\ Running("p") THEN PStep
+  ELSE IF Replay /\ RevRunning THEN RStep
   ELSE WStep \/ PStep \/ RStep \/ TStep \/ EnvStep
 
 Spec     == Init /\ [][Next]_vars
